@@ -99,11 +99,12 @@ def j_init_values_verbatim(F, X, rep, rid):
         if "src/cln_plugin/" not in b.span.get("f", ""):
             continue
         for c in b.calls:
-            if c.noise or not c.name.endswith("Clone::clone") or "options::Value" not in (c.full or "") or not c.args:
+            if c.noise or not c.name.endswith("Clone::clone") or "options::Value" not in (c.full or "") or not c.args or b.cdef.endswith("Clone>::clone"):
                 continue
             import model_msgs as mm_
             e = strip(mm_.expand_params(F, X, strip(X.operand(b, c.args[0])), depth=2))     # (the match may sit in a helper taking both values)
-            if not any(y[0] == "call" and y[1].endswith("ConfigOption::default") for y in walk(e)):
+            if not any(y[0] == "call" and y[1].endswith("ConfigOption::default") for y in walk(e)) and \
+                    not any(y[0] == "field" and y[1] == "default" and "ConfigOption" in str(y[2]) for y in alts(e)):
                 continue
             nd += 1
             absent = False
@@ -200,6 +201,17 @@ def w_wiring(F, X, rep, b, fn, rid="C19-W"):
     aggs = {}
     for adt in ("htlc_manager::HtlcManagerParams", "messages::TrampolineRoutingPolicy"):
         a = _agg_fields(F, X, b, adt)
+        if not a and adt == "messages::TrampolineRoutingPolicy" and aggs.get("htlc_manager::HtlcManagerParams"):
+            # built by a conversion (`TrampolineRoutingPolicy::from(&options)`): the aggregate that conversion returns, its
+            # parameters replaced by the caller's arguments
+            import model_msgs as mm
+            pbi, ps, pd = aggs["htlc_manager::HtlcManagerParams"]
+            rp = pd.get("routing_policy")
+            if rp is not None:
+                rp2 = strip(mm.inline_pure(F, X, rp, keep=lambda n: n.startswith("cln_plugin::") or n.startswith("<cln_plugin::")))
+                if all(y[0] == "agg" and y[1] == adt for y in alts(rp2)):
+                    a = [(pbi, ps, {f: strip(e) for f, e in y[3]}) for y in alts(rp2)]
+                    pd["routing_policy"] = rp2
         rep.anchor(rid, "construction of %s in main" % adt, len(a), 1, fn=fn)
         if a:
             aggs[adt] = a[0]
@@ -222,7 +234,8 @@ def w_wiring(F, X, rep, b, fn, rid="C19-W"):
                 rep.ob(rid, False, fn, "%s polarity" % field, where=loc(s["sp"]), detail="%s is negated" % field)
             if width not in ("bool",):
                 ti = [w for w in wr if w.startswith("try_into:")]
-                okt = len(ti) == 1 and ("Result<%s," % width) in ti[0].replace("std::result::", "")
+                # (a generic helper `fn integer<T: TryFrom<i64>>(..) -> Result<T>`: T is the sink's declared width - checked below - since no `as` cast lies between)
+                okt = len(ti) == 1 and (("Result<%s," % width) in ti[0].replace("std::result::", "") or re.match(r"^try_into:Result<[A-Z]\w*, <[A-Z]\w* as std::convert::TryFrom<i64>>::Error>$", ti[0].replace("std::result::", "")) is not None)
                 rep.ob(rid, okt, fn, "%s converted with a checked TryInto<%s>" % (field, width), where=loc(s["sp"]), how=str(ti)[:80],
                        detail="" if okt else "%s is converted by %s (expected a checked conversion to %s)" % (field, ti or "nothing", width))
             # declared width of the sink
